@@ -282,7 +282,9 @@ def run_concrete(fn: Callable, params: dict, values: dict) -> dict:
             "detail": jsonable(v.detail),
             "cov": sorted(cov.hits),
         }
-    except Exception as e:  # unexpected exception = oracle failure as well
+    except (KeyboardInterrupt, SystemExit, MemoryError):
+        raise
+    except BaseException as e:  # unexpected exception = oracle failure as well
         return {
             "outcome": "violation",
             "clause": "unexpected-exception:" + type(e).__name__,
@@ -365,6 +367,14 @@ def explore(
                         fn(sym, cov, **params)
                     except Violation as v:
                         viol = (v.clause, v.detail)
+                    except (_cu.ControlFlowException, NotDeterministic):
+                        raise
+                    except (KeyboardInterrupt, SystemExit, MemoryError):
+                        raise
+                    except Exception:
+                        raise  # classified by ExceptionFilter below
+                    except BaseException as e:  # e.g. CancelledError escaping the program
+                        viol = ("unexpected-exception:" + type(e).__name__, "".join(traceback.format_exception(e))[-1200:])
                 # a steering exception that did not reach us decides the path
                 ctrl = [c for c in _CONTROL]
                 if ef.user_exc is not None and isinstance(
